@@ -27,7 +27,7 @@ def candidate_points(m, tiny=False):
     for p in m.grid(): pts.append((list(p), 'grid'))
     base = [list(p) for p in itertools.islice(m.grid(), 0, None, max(1, len(pts) // 6))][:6]
     for p in base:
-        for j, (lb, ub, isint, step) in enumerate(m.vars):
+        for j, (lb, ub, isint, step) in enumerate(v[:4] for v in m.vars):
             if ub < INF:
                 q = list(p); q[j] = ub + 0.5; pts.append((q, 'above-ub'))
                 if tiny: q = list(p); q[j] = ub + 1e-8; pts.append((q, 'ub+tiny'))
@@ -40,7 +40,7 @@ def candidate_points(m, tiny=False):
 def ref_status(m, p, kind):
     """(bounds_ok, cons_ok or None(undefined))  by the reference evaluator with the documented tolerances"""
     bounds_ok = True
-    for x, (lb, ub, isint, step) in zip(p, m.vars):
+    for x, (lb, ub, isint, step) in zip(p, (v[:4] for v in m.vars)):
         if x < lb - 1e-6 or x > ub + 1e-6: bounds_ok = False
         if isint and abs(x - round(x)) > 1e-5: bounds_ok = False
     cons = m.feasible(p, tol=1e-6)
@@ -203,15 +203,16 @@ def work_round(job):
 
 
 def models(tier):
-    fams = ['linmix', 'canon', 'uenc', 'sharing'] if tier == 'quick' else None
+    fams = ['linmix', 'canon', 'uenc', 'sharing', 'fracint', 'bounds', 'dvars'] if tier == 'quick' else None
     out = []
     for i, (fam, name, m) in enumerate(flatgen.all_models('quick', fams)):
-        if fam in ('alldiffcont', 'sos', 'compl'): continue     # alldiff over non-integer expressions is refused by the converter;
+        if fam in ('alldiffcont', 'sos', 'compl', 'cones', 'pl'): continue
+        if fam == 'bounds' and name.startswith('dom5') and 'alldiff' in name: continue   # dom5 makes the third alldiff argument continuous (= alldiffcont)     # alldiff over non-integer expressions is refused by the converter;
         out.append((fam, name, m))                               # SOS/complementarity: auxiliaries not functionally determined
     if tier == 'quick':
         d1 = [(f, n, m) for (f, n, m) in flatgen.all_models('quick', ['shapes'])]
         out += d1[::12]
-        out = out[::3]
+        out = out[::2]
     else:
         out = out[::4]
     return out
